@@ -115,5 +115,5 @@ def crate_for_repo(name):
     t = open(os.path.join(dst, 'Cargo.toml')).read().replace('path = "/repo"', 'path = "%s"' % REPO)
     open(os.path.join(dst, 'Cargo.toml'), 'w').write(t)
     if name == 'replay_cfg':      # include_bytes! of the RSA fixtures is relative to the sibling crate
-        m = os.path.join(dst, 'src', 'main.rs'); open(m, 'w').write(open(m).read().replace('../../replay/keys/', os.path.join(VERIF, 'replay', 'keys') + '/'))
+        m = os.path.join(dst, 'src', 'main.rs'); txt = open(m).read(); open(m, 'w').write(txt.replace('../../replay/keys/', os.path.join(VERIF, 'replay', 'keys') + '/'))
     return dst, tgt + '-' + tag
